@@ -147,11 +147,11 @@ Proof.
 Qed.
 
 (* Write: what is reported as sent never exceeds what was offered *)
-Lemma write_loop_bounds fuel k : forall remaining (s : os) rem' s',
-  write_loop fuel k remaining s = (Ok rem', s') -> 0 <= remaining -> 0 <= rem' <= remaining.
+Lemma write_loop_bounds fuel k : forall hs remaining (s : os) rem' s',
+  write_loop fuel hs k remaining s = (Ok rem', s') -> 0 <= remaining -> 0 <= rem' <= remaining.
 Proof.
-  induction fuel as [|f IH]; intros remaining s rem' s' H Hr; cbn [write_loop] in H.
-  - inversion H; subst. lia.
+  induction fuel as [|f IH]; intros hs remaining s rem' s' H Hr; cbn [write_loop] in H.
+  - inversion H.
   - destruct (remaining =? 0) eqn:E0; [inversion H; subst; lia|].
     apply bind_inv in H. destruct H as [[t [s1 [_ H]]]|[r0 [_ [_ Hx]]]]; [|exfalso; exact (recast_not_ok _ _ Hx)].
     destruct (negb ((t_pend t =? -1) || (t_pend t =? remaining))); [inversion H|].
@@ -160,12 +160,11 @@ Proof.
     + apply bind_inv in H. destruct H as [[[] [s3 [_ H]]]|[r0 [_ [_ Hx]]]]; [|exfalso; exact (recast_not_ok _ _ Hx)].
       apply bind_inv in H. destruct H as [[ok [s4 [_ H]]]|[r0 [_ [_ Hx]]]]; [|exfalso; exact (recast_not_ok _ _ Hx)].
       destruct ok; cbn [negb] in H.
-      * destruct f; [inversion H|]. eapply IH; eassumption.
+      * destruct hs; [inversion H|]. eapply IH; eassumption.
       * inversion H; subst. lia.
     + apply Z.leb_gt in E1.
       apply bind_inv in H. destruct H as [[[] [s3 [_ H]]]|[r0 [_ [_ Hx]]]]; [|exfalso; exact (recast_not_ok _ _ Hx)].
       destruct (remaining <? res) eqn:E2; [inversion H|]. apply Z.ltb_ge in E2.
-      destruct f; [inversion H|].
       assert (Hb : 0 <= rem' <= remaining - res) by (eapply IH; [eassumption|lia]). lia.
 Qed.
 
@@ -175,8 +174,9 @@ Proof.
   unfold tls_write. intros H Hs.
   apply bind_inv in H. destruct H as [[ok [s1 [_ H]]]|[r0 [_ [_ Hx]]]]; [|exfalso; exact (recast_not_ok _ _ Hx)].
   destruct ok.
-  - apply bind_inv in H. destruct H as [[rem [s2 [H1 H2]]]|[r0 [_ [_ Hx]]]]; [|exfalso; exact (recast_not_ok _ _ Hx)].
-    inversion H2; subst. pose proof (write_loop_bounds _ _ _ _ _ _ H1 Hs). lia.
+  - apply bind_inv in H. destruct H as [[x [s1' [_ H]]]|[r0 [_ [_ Hx]]]]; [|exfalso; exact (recast_not_ok _ _ Hx)].
+    apply bind_inv in H. destruct H as [[rem [s2 [H1 H2]]]|[r0 [_ [_ Hx]]]]; [|exfalso; exact (recast_not_ok _ _ Hx)].
+    inversion H2; subst. pose proof (write_loop_bounds _ _ _ _ _ _ _ H1 Hs). lia.
   - inversion H; subst. lia.
 Qed.
 
